@@ -64,7 +64,15 @@ func edifactHandleEOD(context *EncoderContext, buffer []byte) error {
 		}
 
 		available := context.GetSymbolInfo().GetDataCapacity() - context.GetCodewordCount()
+		// codewords (not characters) the rest of the message takes in ASCII encodation:
+		// an extended character needs an upper shift
 		remaining := context.GetRemainingCharacters()
+		msg := context.GetMessage()
+		for i := context.pos; i < context.pos+context.GetRemainingCharacters() && i < len(msg); i++ {
+			if HighLevelEncoder_isExtendedASCII(msg[i]) {
+				remaining++
+			}
+		}
 		// The following two lines are a hack inspired by the 'fix' from https://sourceforge.net/p/barcode4j/svn/221/
 		if remaining > available {
 			e := context.UpdateSymbolInfoByLength(context.GetCodewordCount() + 1)
